@@ -934,6 +934,10 @@ impl super::DiskFS for Disk {
             log::error!("chunk length is incompatible with DOS 3.x");
             return Err(Box::new(Error::Range));
         }
+        if fimg.chunks.values().any(|chunk| chunk.len() > 256) {
+            log::error!("a chunk is longer than a sector");
+            return Err(Box::new(Error::Range));
+        }
         return self.write_file(fimg);
     }
     fn read_block(&mut self,num: &str) -> Result<Vec<u8>,DYNERR> {
